@@ -131,6 +131,11 @@ class Val:
 
 STRUCT = Val()
 DYN = Val(kinds=VALUE_KINDS)
+# "no value yet": what a call returns while its own analysis is still in progress (recursion) in the first
+# round of the fixpoint.  It has no possible kinds, so operations on it contribute no effects in that round;
+# the next round sees the real result.  (Using STRUCT here made a recursive callee look like an unknown
+# dynamic value once, and effects only ever accumulate.)
+BOT = Val(kinds=FS())
 
 
 def dyn_list() -> Val:
